@@ -170,6 +170,33 @@ def emit_c13(types, anc, desc, disj, out):
     open(out, "w").write("\n".join(lines) + "\n")
 
 
+def emit_c14(types, out):
+    """C14: which callback signature belongs to which (vocabulary URI, type name): derived from the ontology
+    files only.  specfuns are expanded where the contracts in /repo/streams/verif_contracts.go use them."""
+    ts = sorted(types)
+    def iface(t):
+        return "streams/vocab.%s%s" % (types[t]["vocab"], t)
+    def own(o, t):
+        return '%s.VocabularyURI() == "%s" && %s.GetTypeName() == "%s"' % (o, types[t]["uri"], o, t)
+    L = ["# GENERATED on every run by /verif/oracle/ontology.py from /repo/astool/*.jsonld -- C14 tables", ""]
+    L.append("specfun knownType(o) = " + " || ".join("(%s)" % own("o", t) for t in ts))
+    L.append("specfun ownCallback(cb, o) = " + " || ".join('(%s && cb.dyn == functag("%s"))' % (own("o", t), iface(t)) for t in ts))
+    L.append("specfun ownPredicate(cb, o) = " + " || ".join('(%s && cb.dyn == predtag("%s"))' % (own("o", t), iface(t)) for t in ts))
+    L.append("specfun implementsOwn(o) = " + " || ".join('(%s && implements(o, "%s"))' % (own("o", t), iface(t)) for t in ts))
+    L.append("specfun legalCallback(cb) = " + " || ".join('cb.dyn == functag("%s")' % iface(t) for t in ts))
+    L.append("specfun legalPredicate(cb) = " + " || ".join('cb.dyn == predtag("%s")' % iface(t) for t in ts))
+    # JSON input: the value's own type is named by "<alias>:<Name>" (or the bare name when its vocabulary has no alias)
+    def alias(t):
+        rest = types[t]["uri"].split("://", 1)[1]
+        return '(has(aliasMap, "https://%s") ? aliasMap["https://%s"] : aliasMap["http://%s"])' % (rest, rest, rest)
+    def jsonname(t):
+        a = alias(t)
+        return '(typeString == (len(%s) > 0 ? %s + ":" : "") + "%s")' % (a, a, t)
+    L.append("specfun jsonKnownType(typeString, aliasMap) = " + " || ".join(jsonname(t) for t in ts))
+    L.append("specfun jsonOwnCallback(cb, typeString, aliasMap) = " + " || ".join('(%s && cb.dyn == functag("%s"))' % (jsonname(t), iface(t)) for t in ts))
+    open(out, "w").write("\n".join(L) + "\n")
+
+
 if __name__ == "__main__":
     repo = sys.argv[2] if len(sys.argv) > 2 else "/repo"
     types, props = load(repo)
@@ -179,6 +206,12 @@ if __name__ == "__main__":
         emit_c13(types, anc, desc, disj, sys.argv[3])
         print(json.dumps(dict(types=len(types), properties=len(props), lemma_failures=bad,
                               pairs=len(types) ** 2)))
+    elif sys.argv[1] == "c14":
+        emit_c14(types, sys.argv[3])
+        names = {}
+        for t in types:
+            names.setdefault(t, []).append(types[t]["vocab"])
+        print(json.dumps(dict(types=len(types), vocabularies=sorted(set(types[t]["uri"] for t in types)), lemma_failures=[])))
     elif sys.argv[1] == "dump":
         print(json.dumps(dict(types={t: dict(types[t], anc=sorted(anc[t]), desc=sorted(desc[t]), disj=sorted(disj[t])) for t in types},
                               props={p: {k: v for k, v in props[p].items() if k != "raw_range"} for p in props}), indent=1))
